@@ -63,15 +63,18 @@ __CPROVER_assigns(self->cls)
 __CPROVER_ensures(self->cls == cls && __CPROVER_return_value == TRUE)
 ;
 
-/* str.c:196  size' = size (+1 when no NUL among the first size bytes); len = strnlen(buff,size) */
+/* str.c:196  size' = size (+1 when no NUL among the first size bytes); len = strnlen(buff,size).
+ * Precondition as url.c's call sites meet it: the slice lies inside the ghost text extent (buff NULL
+ * or a slice that relies on an earlier NUL is not used by url.c; socket.c's call site has its own
+ * rendering in contracts/socket.h).  Cheap predicates only: r_ok / OBJECT_SIZE based formulations
+ * made the SAT instance of spif_url_parse 20x larger (> 10 GB). */
 spif_str_t spif_str_new_from_buff(spif_charptr_t buff, spif_stridx_t size)
 __CPROVER_requires(size >= 0 && size < VCAP)
-__CPROVER_requires(buff == NULL || (__CPROVER_r_ok(buff, 0) && ((size_t) size <= VREMAIN(buff) || VCSTR_OK(buff))))
+__CPROVER_requires(VG_IN_TXT(buff) && (size_t) size <= vg_txt_len - __CPROVER_POINTER_OFFSET(buff))
 __CPROVER_assigns()
 __CPROVER_ensures(__CPROVER_is_fresh(__CPROVER_return_value, sizeof(spif_const_str_t)))
 __CPROVER_ensures(__CPROVER_return_value->len >= 0 && __CPROVER_return_value->len <= size)
-__CPROVER_ensures(buff != NULL || __CPROVER_return_value->len == 0)
-__CPROVER_ensures(buff == NULL || __CPROVER_return_value->len == size || buff[__CPROVER_return_value->len] == 0)
+__CPROVER_ensures(__CPROVER_return_value->len == size || buff[__CPROVER_return_value->len] == 0)
 __CPROVER_ensures(__CPROVER_return_value->size == ((__CPROVER_return_value->len == size) ? size + 1 : size))
 __CPROVER_ensures(__CPROVER_is_fresh(__CPROVER_return_value->s, (size_t) __CPROVER_return_value->size))
 __CPROVER_ensures(__CPROVER_return_value->s[__CPROVER_return_value->len] == 0)
